@@ -570,7 +570,9 @@ func (t *RaftTransaction) ListPage(ctx context.Context, prefix string, after str
 		}
 		var mergedEntries []string
 		for updateEntry := range updates {
-			if updateEntry < entry && updateEntry > lastKey {
+			// (the empty entry - a key equal to the prefix - sorts first and
+			// is not "after" an empty lastKey that only means "no keys yet")
+			if updateEntry < entry && (len(keys) == 0 || updateEntry > lastKey) {
 				mergedEntries = append(mergedEntries, updateEntry)
 				delete(updates, updateEntry)
 			}
@@ -604,7 +606,7 @@ func (t *RaftTransaction) ListPage(ctx context.Context, prefix string, after str
 	}
 	var mergedEntries []string
 	for updateEntry := range updates {
-		if updateEntry > lastKey {
+		if len(keys) == 0 || updateEntry > lastKey {
 			mergedEntries = append(mergedEntries, updateEntry)
 			delete(updates, updateEntry)
 		}
